@@ -41,7 +41,7 @@ CONF["C01"] = {
     "level_text": "Totality cannot be proved by testing; the check enumerates the whole single-field definition space named in the property (thorough: every profile field x 256 base bytes x 256 sizes x 2 byte orders, plus non-profile field numbers and unknown messages) and searches multi-field / malformed inputs by structured mutation and coverage-guided fuzzing, through all six entry-point variants and several read chunkings. 'No hang' is a 20 s watchdog on inputs that normally take microseconds.",
     "level_note": "Trusted: recover() sees every panic on the calling goroutine (the library starts none); readers that violate io.Reader (0,nil forever) are outside the domain. Multi-field interactions are sampled, not enumerated.",
     "quick": {"checks": 6000, "timeout": 600, "shrinktime": "10s"},
-    "thorough": {"checks": 300000, "timeout": 3000, "shrinktime": "30s", "fuzz": {"target": "FuzzDecodeAll", "seconds": 150}},
+    "thorough": {"checks": 40000, "shards": 8, "timeout": 3000, "shrinktime": "30s", "fuzz": {"target": "FuzzDecodeAll", "seconds": 150}},
     "rule": "grid: file = header + file_id + one definition with one field (num, size, base byte) in one byte order + one data record + CRC; every cell is distinct; non-trivial = Decode accepted the definition and the field is a profile field (a value is stored by reflection). mutants: rapid-drawn structural mutations (sizes, base bytes, field numbers, message numbers, byte order, local types, duplicate/drop/swap/truncate records, developer flags, 255-field definitions, header fields) of generated streams and of repository .fit files, CRC/size repaired 70% of the time, plus raw byte strings; read through whole/1-byte/fixed/list/data+EOF chunkings; non-trivial = DecodeHeader accepts the input (it got past the header); distinct by fingerprint of the bytes.",
     "assumptions": ["recover() on the calling goroutine observes every panic of the library", "a decode of a <20 KiB input that takes more than 20 s is a hang"],
 }
@@ -103,7 +103,7 @@ CONF["C04"] = {
     "level_note": "Trusted: CRC-16 with a degree-16 generator detects every burst of length <= 16 (so a correct implementation has no excuse); harness bitwise CRC; the independent header verdict 'size 14 and stored != 0 and stored != CRC(first 12 bytes), or unsupported protocol major, or data type != .FIT'. Header sizes other than 12/14 are outside the domain of Header.CheckIntegrity here.",
     "quick": {"checks": 24, "timeout": 400, "shrinktime": "10s"},
     "thorough": {"checks": 400, "timeout": 2400, "shrinktime": "30s"},
-    "rule": "bursts: each rapid case draws one valid file (<= 700 bytes) and enumerates every admissible (bit position, burst pattern) pair on it: 16 solid runs, 15 end-points-only runs and 17 position-seeded patterns of length 3..16; each corrupted image is distinct (different error polynomial) and non-trivial (it differs from the valid file); counted by the enumerator, split by region (header, header/data boundary, records, data/crc boundary, file crc). bursts-all (thorough): all 32768 patterns with first and last bit set. headers: 100 generated headers per rapid case; non-trivial = 14-byte header with a wrong non-zero CRC; header-grid: sizes x 7 protocol bytes x 4 data types x 3 CRC modes.",
+    "rule": "bits are numbered in the order the reflected CRC and a serial link process them (least significant bit of each byte first). bursts: each rapid case draws one valid file (<= 700 bytes) and enumerates every admissible (bit position, burst pattern) pair on it, plus every 1- and 2-byte window overwritten with 0x00 and 0xFF: 16 solid runs, 15 end-points-only runs and 17 position-seeded patterns of length 3..16; each corrupted image is distinct (different error polynomial) and non-trivial (it differs from the valid file); counted by the enumerator, split by region (header, header/data boundary, records, data/crc boundary, file crc). bursts-all (thorough): all 32768 patterns with first and last bit set. headers: 100 generated headers per rapid case; non-trivial = 14-byte header with a wrong non-zero CRC; header-grid: sizes x 7 protocol bytes x 4 data types x 3 CRC modes.",
     "assumptions": ["burst-error detection theorem for CRC-16 (generator x^16+x^15+x^2+1 has a non-zero constant term)"],
 }
 
@@ -233,7 +233,7 @@ CONF["C09"] = {
     "technique": "rapid-generated goroutine programs (2-16 goroutines x 5-40 calls, GOMAXPROCS 2/4/16) executed under the Go race detector in a worker process; oracle = sequential baseline digests + empty race log (campaign A) / only finding K1 in the race log (campaign B)",
     "level_text": "Generated concurrent programs over the C08 call vocabulary on independent readers, writers and Files, run in a race-instrumented worker process. Every call's result digest must equal the single-goroutine baseline and the race detector must stay silent. The race detector generalises each sampled schedule by happens-before, so a report does not need the unlucky interleaving itself; it is still a sample of schedules, not all interleavings.",
     "level_note": "Trusted: Go race detector (no false positives); the program keeps inputs independent by construction (each call builds its own reader/File). Campaign A draws only inputs that do not feed the package-level component accumulators: any race report there is a violation. Campaign B draws inputs that do; a report whose two access stacks both start in uint32Accumulator.accumulate / RecordMsg.expandComponents is finding K1, anything else is a violation.",
-    "quick": {"checks": 12, "timeout": 600, "shrinktime": "20s"},
+    "quick": {"checks": 8, "timeout": 600, "shrinktime": "20s"},
     "thorough": {"checks": 500, "timeout": 3000, "shrinktime": "60s"},
     "rule": "each rapid case is one program: G in 2..16 goroutines, each 5..40 calls drawn from the 6 call kinds on pool inputs (campaign A: inputs without accumulating sources, B: with), released together by a barrier under a drawn GOMAXPROCS; all programs are counted non-trivial only if distinct by fingerprint; the class 'program with overlapping same-kind calls' (measured with per-call timestamps) shows how many actually overlapped.",
     "assumptions": ["race detector soundness for the executed schedules", "schedules are sampled by the Go scheduler"],
